@@ -179,50 +179,52 @@ theorem lastN_nodup {α} (n : Nat) (l : List α) (h : l.Nodup) : (lastN n l).Nod
   rw [← hsplit, List.nodup_append] at h
   exact h.2.1
 
-/-- Tracked paths stay distinct along every history with fresh appends. -/
-theorem fresh_nodup (ops : List Op) (s : St) (hn : s.keeper.paths.Nodup) (hf : Fresh s.keeper ops) :
+theorem append_nodup (k : Keeper) (p : Path) (hn : k.paths.Nodup) : (k.append p).paths.Nodup := by
+  simp only [Keeper.append]
+  refine List.nodup_append.mpr ⟨hn.erase p, by simp, fun a ha b hb => ?_⟩
+  simp at hb; subst hb
+  intro h; subst h
+  exact (List.Nodup.mem_erase_iff hn).mp ha |>.1 rfl
+
+/-- Tracked paths stay distinct along every history - also when a path is appended again. -/
+theorem tracked_nodup (ops : List Op) (s : St) (hn : s.keeper.paths.Nodup) :
     (s.run ops).keeper.paths.Nodup := by
   induction ops generalizing s with
   | nil => exact hn
   | cons op rest ih =>
     simp only [St.run]
     apply ih
-    · rw [step_keeper]
-      cases op with
-      | append p =>
-        simp only [kstep, Keeper.append]
-        exact List.nodup_append.mpr ⟨hn, by simp, fun a ha b hb => by
-          simp at hb; subst hb; intro h; subst h; exact hf.1 ha⟩
-      | appendMissing p =>
-        simp only [kstep, Keeper.append]
-        exact List.nodup_append.mpr ⟨hn, by simp, fun a ha b hb => by
-          simp at hb; subst hb; intro h; subst h; exact hf.1 ha⟩
-      | cleanup =>
-        simp only [kstep]
-        rw [(selectRemoval_eq s.keeper).2.1]
-        exact lastN_nodup _ _ hn
-      | extRemove p => exact hn
-      | extCreate p k => exact hn
-    · rw [step_keeper]; exact hf.2
+    rw [step_keeper]
+    cases op with
+    | append p => exact append_nodup _ _ hn
+    | appendMissing p => exact append_nodup _ _ hn
+    | cleanup =>
+      simp only [kstep]
+      rw [(selectRemoval_eq s.keeper).2.1]
+      exact lastN_nodup _ _ hn
+    | extRemove p => exact hn
+    | extCreate p k => exact hn
+
+theorem fresh_nodup (ops : List Op) (s : St) (hn : s.keeper.paths.Nodup) (_hf : Fresh s.keeper ops) :
+    (s.run ops).keeper.paths.Nodup := tracked_nodup ops s hn
 
 /-- **Keeps the newest**, for every `max_keep ≥ 0`, every start-up state and every history of
-appends (fresh), cleanups and changes made by somebody else: in every state such a history can
+appends (of new names or of names used before), cleanups and changes made by somebody else: in every state such a history can
 reach, the next cleanup does not pass any of the last `max_keep` tracked paths to removal, leaves
 them existing exactly as they were, and keeps tracking them. -/
-theorem keeps_newest (s : St) (ops : List Op) (hn : s.keeper.paths.Nodup)
-    (hf : Fresh s.keeper ops) :
+theorem keeps_newest (s : St) (ops : List Op) (hn : s.keeper.paths.Nodup) :
     let s' := s.run ops
     ∀ p ∈ lastN s'.keeper.maxKeep s'.keeper.paths,
       p ∉ (s'.keeper.cleanup s'.fs).removed ∧
       (s'.keeper.cleanup s'.fs).fs.kind? p = s'.fs.kind? p ∧
       p ∈ (s'.keeper.cleanup s'.fs).keeper.paths :=
-  keeps_newest_step _ _ (fresh_nodup ops s hn hf)
+  keeps_newest_step _ _ (tracked_nodup ops s hn)
 
 /-- The same from the real start-up state: a keeper made by the constructor from a directory
 listing (entries have distinct names), over any file system. -/
 theorem keeps_newest_from_ctor (maxKeep : Int) (dir pattern : String) (listing : List Entry)
     (k : Keeper) (fs : FS) (ops : List Op) (hc : Keeper.ctor maxKeep dir pattern listing = .ok k)
-    (hnames : (listing.map (·.name)).Nodup) (hf : Fresh k ops) :
+    (hnames : (listing.map (·.name)).Nodup) :
     let s' := (⟨k, fs, []⟩ : St).run ops
     ∀ p ∈ lastN s'.keeper.maxKeep s'.keeper.paths,
       p ∉ (s'.keeper.cleanup s'.fs).removed ∧
@@ -233,17 +235,27 @@ theorem keeps_newest_from_ctor (maxKeep : Int) (dir pattern : String) (listing :
     · cases hc
     · cases hc; rfl
   intro s' p hp
-  have := keeps_newest ⟨k, fs, []⟩ ops (by rw [hk]; exact scan_nodup dir pattern listing hnames) hf p hp
+  have := keeps_newest ⟨k, fs, []⟩ ops (by rw [hk]; exact scan_nodup dir pattern listing hnames) p hp
   exact ⟨this.1, this.2.1⟩
 
-/-- Without freshness the clause fails: appending the path that is already the newest tracked one
-makes the next cleanup delete it (`max_keep = 1`). This is why `Fresh` is a hypothesis; the control
-thread never does it. -/
-theorem keeps_newest_needs_fresh :
-    ∃ (s : St), s.keeper.paths.Nodup ∧
-      let s' := s.run [.append "a", .append "a"]
-      "a" ∈ lastN s'.keeper.maxKeep s'.keeper.paths ∧ "a" ∈ (s'.keeper.cleanup s'.fs).removed := by
-  refine ⟨⟨⟨1, []⟩, [], []⟩, by simp, ?_⟩
+/-- **The code as found (F15) deletes the state it has just been given**: a rolling checkpoint - the same name
+saved again after the previous directory was moved away - is tracked twice, and the next cleanup (`max_keep = 1`)
+removes the older entry, which is the path just written. -/
+theorem as_found_deletes_newest :
+    let k0 : Keeper := ⟨1, []⟩
+    let k2 := (k0.appendAsFound "states/checkpoint.state").appendAsFound "states/checkpoint.state"
+    let fs : FS := [("states/checkpoint.state", .dir)]
+    "states/checkpoint.state" ∈ lastN k2.maxKeep k2.paths ∧
+      "states/checkpoint.state" ∈ (k2.cleanup fs).removed ∧
+      (k2.cleanup fs).fs.kind? "states/checkpoint.state" = none := by
+  decide
+
+/-- ... and the repaired `append` keeps it. -/
+theorem repaired_keeps_rolling_checkpoint :
+    let k0 : Keeper := ⟨1, []⟩
+    let k2 := (k0.append "states/checkpoint.state").append "states/checkpoint.state"
+    let fs : FS := [("states/checkpoint.state", .dir)]
+    (k2.cleanup fs).removed = [] ∧ (k2.cleanup fs).fs.kind? "states/checkpoint.state" = some .dir := by
   decide
 
 /-- **Removes the older ones**, in every reachable state: after the next cleanup exactly the last
@@ -274,12 +286,12 @@ theorem tracked_origin (ops : List Op) (s : St) :
       | append q =>
         simp only [kstep, Keeper.append, List.mem_append, List.mem_singleton] at h
         rcases h with h | h
-        · exact .inl h
+        · exact .inl (List.mem_of_mem_erase h)
         · exact .inr (by simp [appended, h])
       | appendMissing q =>
         simp only [kstep, Keeper.append, List.mem_append, List.mem_singleton] at h
         rcases h with h | h
-        · exact .inl h
+        · exact .inl (List.mem_of_mem_erase h)
         · exact .inr (by simp [appended, h])
       | cleanup =>
         simp only [kstep] at h
@@ -330,12 +342,12 @@ theorem touches_only_tracked (ops : List Op) (s : St) :
         | append p =>
           simp only [kstep, Keeper.append, List.mem_append, List.mem_singleton] at h
           rcases h with h | h
-          · exact .inr (.inl h)
+          · exact .inr (.inl (List.mem_of_mem_erase h))
           · exact .inr (.inr (by simp [appended, h]))
         | appendMissing p =>
           simp only [kstep, Keeper.append, List.mem_append, List.mem_singleton] at h
           rcases h with h | h
-          · exact .inr (.inl h)
+          · exact .inr (.inl (List.mem_of_mem_erase h))
           · exact .inr (.inr (by simp [appended, h]))
         | cleanup =>
           simp only [kstep] at h
